@@ -57,6 +57,19 @@ pub fn run(ctx: &mut Ctx) {
                     }
                     return Err(format!("compressed bytes differ from zlib-ng: {}", first_diff(&a.out, &b.out)));
                 }
+                // both libraries duplicate the stream after the k-th call and carry on with the copy
+                if it.sched.tail_room != AMPLE && it.sched.tail_room >= 2 && a.calls.len() > 3 && (it.sched_idx + it.inp.data.len()) % 5 == 1 {
+                    for k in [1usize, 2] {
+                        c.exec();
+                        let exk = DExtra { copy_after_call: k, ..Default::default() };
+                        let ak = run_deflate::<Rs>(&it.cfg, &it.inp.data, it.sched, &env, &exk, None)?;
+                        if let Ok(bk) = run_deflate::<Ng>(&it.cfg, &it.inp.data, it.sched, &env, &exk, None) {
+                            if ak.out != bk.out {
+                                return Err(format!("continued on a deflateCopy taken after call {k}, compressed bytes differ from zlib-ng: {}", first_diff(&ak.out, &bk.out)));
+                            }
+                        }
+                    }
+                }
                 c.validated();
                 Ok(())
             },
